@@ -138,8 +138,46 @@ impl<'tcx> Extract<'tcx> {
             let body = tcx.optimized_mir(did);
             let unsafe_spans = self.unsafe_spans(ldid);
             fns.push(self.body_j(did, body, &unsafe_spans));
+            // promoted constants of this body (e.g. `&(-L::MAX..=L::MAX)`), as bodies of their own
+            let proms = tcx.promoted_mir(did);
+            for (pi, pb) in proms.iter_enumerated() {
+                let mut pj = self.body_j(did, pb, &[]);
+                if let J::Obj(kv) = &mut pj {
+                    for (k, v) in kv.iter_mut() {
+                        if k == "id" {
+                            *v = s(format!("{}::promoted[{}]", self.path(did), pi.as_u32()));
+                        }
+                        if k == "kind" {
+                            *v = s("Promoted");
+                        }
+                    }
+                }
+                fns.push(pj);
+            }
             if matches!(kind, DefKind::Fn | DefKind::AssocFn) {
                 roots.push(did);
+            }
+        }
+        // integer associated constants of impls (e.g. Dimacs::MAX_DIMACS, Lit::MAX_CODE)
+        let mut consts = Vec::new();
+        for ldid in tcx.hir_crate_items(()).definitions() {
+            let did = ldid.to_def_id();
+            if let DefKind::AssocConst { .. } = tcx.def_kind(did) {
+                let cty = tcx.type_of(did).instantiate_identity().skip_norm_wip();
+                if !cty.is_integral() {
+                    continue;
+                }
+                if tcx.generics_of(did).requires_monomorphization(tcx) {
+                    continue;
+                }
+                if let Ok(val) = tcx.const_eval_poly(did) {
+                    if let Some(si) = val.try_to_scalar_int() {
+                        let size = si.size();
+                        let bits = si.to_bits(size);
+                        let v: i128 = if cty.is_signed() { size.sign_extend(bits) as i128 } else { bits as i128 };
+                        consts.push(J::obj(vec![("id", s(self.path(did))), ("ty", s(self.ty_str(cty))), ("int", J::Int(v))]));
+                    }
+                }
             }
         }
         let (inst, ext) = self.instance_graph(&roots);
@@ -154,6 +192,7 @@ impl<'tcx> Extract<'tcx> {
             ("crate", s(krate)),
             ("fns", J::Arr(fns)),
             ("adts", J::Arr(adts)),
+            ("consts", J::Arr(consts)),
             ("instances", inst),
         ])
     }
